@@ -85,6 +85,7 @@ type reg struct {
 type machine struct {
 	regs   []reg
 	firsts map[int]string
+	held   map[int][]keptNode // per node register: the nodes iterators yielded during its first dump
 }
 
 func errClass(err error) string {
@@ -140,6 +141,75 @@ func kindLetter(n datamodel.Node, err error) byte {
 
 // looked up in every map on every dump, present or not (the model's probe_keys)
 var probeKeys = []string{"a", "b", "c", "k", "", "0", "1", "ab", "key", "z", "q", "new"}
+
+// Nodes handed out by iterators are handed-out nodes: the dumper RETAINS every key and value an
+// iterator yields, reads what it needs at that moment (as before), and after the iteration re-reads
+// the retained nodes and looks the retained keys up again (LookupByNode).  [col] collects the
+// retained nodes of a register's first dump (re-read after every later step) and any fault seen.
+type keptNode struct {
+	n    datamodel.Node
+	text string
+}
+type collector struct {
+	on    bool // keep the retained nodes (first dump of a register)
+	held  []keptNode
+	fault bool // a retained node read differently after further Next() calls
+}
+
+var col *collector
+
+// shallow: what a node says about itself without descending (and without reading byte streams)
+func shallow(n datamodel.Node) (out string) {
+	defer func() {
+		if r := recover(); r != nil {
+			out = "!panic"
+		}
+	}()
+	if n == nil {
+		return "!nil"
+	}
+	switch n.Kind() {
+	case datamodel.Kind_Null:
+		return "n"
+	case datamodel.Kind_Bool:
+		b, err := n.AsBool()
+		return fmt.Sprint("b", b, err != nil)
+	case datamodel.Kind_Int:
+		i, err := n.AsInt()
+		return fmt.Sprint("i", i, err != nil)
+	case datamodel.Kind_Float:
+		f, err := n.AsFloat()
+		return fmt.Sprint("d", math.Float64bits(f), err != nil)
+	case datamodel.Kind_String:
+		s, err := n.AsString()
+		return fmt.Sprint("s", lib.Hex(s), err != nil)
+	case datamodel.Kind_Link:
+		l, err := n.AsLink()
+		if err != nil || l == nil {
+			return "l!"
+		}
+		return "l" + lib.Hex(l.Binary())
+	case datamodel.Kind_Bytes:
+		return "y"
+	case datamodel.Kind_List:
+		return fmt.Sprint("a", n.Length())
+	case datamodel.Kind_Map:
+		return fmt.Sprint("m", n.Length())
+	}
+	return "x"
+}
+
+func retain(n datamodel.Node, text string) {
+	if col != nil && col.on {
+		col.held = append(col.held, keptNode{n, text})
+	}
+}
+
+func fault() {
+	if col != nil {
+		col.fault = true
+	}
+}
 
 func tok(sb *strings.Builder, s string) {
 	if sb.Len() > 0 {
@@ -216,13 +286,21 @@ func dump(sb *strings.Builder, n datamodel.Node, depth int) {
 		tok(sb, fmt.Sprintf("a%d", n.Length()))
 		it := n.ListIterator()
 		cnt := 0
+		var vals []keptNode
 		for it != nil && !it.Done() {
 			_, v, err := it.Next()
 			if err != nil {
 				break
 			}
+			vals = append(vals, keptNode{v, shallow(v)})
 			dump(sb, v, depth+1)
 			cnt++
+		}
+		for _, h := range vals { // the retained values after the iterator has run to its end
+			if shallow(h.n) != h.text {
+				fault()
+			}
+			retain(h.n, h.text)
 		}
 		ks := make([]byte, cnt)
 		for i := 0; i < cnt; i++ {
@@ -233,6 +311,7 @@ func dump(sb *strings.Builder, n datamodel.Node, depth int) {
 		tok(sb, fmt.Sprintf("m%d", n.Length()))
 		it := n.MapIterator()
 		var keys []string
+		var knodes, vals []keptNode
 		for it != nil && !it.Done() {
 			k, v, err := it.Next()
 			if err != nil {
@@ -240,12 +319,26 @@ func dump(sb *strings.Builder, n datamodel.Node, depth int) {
 			}
 			ks, _ := k.AsString()
 			keys = append(keys, ks)
+			knodes = append(knodes, keptNode{k, shallow(k)})
+			vals = append(vals, keptNode{v, shallow(v)})
 			tok(sb, "k"+lib.Hex(ks))
 			dump(sb, v, depth+1)
 		}
 		ks := make([]byte, len(keys))
 		for i, k := range keys {
 			ks[i] = kindLetter(n.LookupByString(k))
+			// the retained key and value nodes after the iterator has run to its end: they read as they
+			// did when they were handed out, and the retained key still finds its own entry
+			if shallow(knodes[i].n) != knodes[i].text || shallow(vals[i].n) != vals[i].text {
+				fault()
+			}
+			if kindLetter(n.LookupByNode(knodes[i].n)) != ks[i] {
+				fault()
+			} else if v2, err := n.LookupByNode(knodes[i].n); err == nil && shallow(v2) != vals[i].text {
+				fault()
+			}
+			retain(knodes[i].n, knodes[i].text)
+			retain(vals[i].n, vals[i].text)
 		}
 		ps := make([]byte, len(probeKeys))
 		for i, k := range probeKeys {
@@ -806,14 +899,22 @@ func (m *machine) step(op string) string {
 	if quiet {
 		return sb.String()
 	}
+	var tail strings.Builder // retention faults, after everything the model predicts
 	for i, r := range m.regs {
 		if r.k != rNode {
 			continue
 		}
+		_, seen := m.firsts[i]
+		col = &collector{on: !seen}
 		d1 := dumpText(r.n)
+		c1 := col
+		col = &collector{}
 		d2 := dumpText(r.n)
+		kfault := c1.fault || col.fault
+		col = nil
 		if first, ok := m.firsts[i]; !ok {
 			m.firsts[i] = d1
+			m.held[i] = c1.held
 			c := '='
 			if hasStream(r.n, 0) {
 				c = '~'
@@ -821,11 +922,24 @@ func (m *machine) step(op string) string {
 			fmt.Fprintf(&sb, ";%d%c%s", i, c, d1)
 		} else if first != d1 {
 			fmt.Fprintf(&sb, ";c%d=%s", i, d1)
+		} else {
+			// the register reads as it did; so must every node its iterators handed out back then
+			// (when the register itself changed, that is reported above and these are its parts)
+			for _, h := range m.held[i] {
+				if shallow(h.n) != h.text {
+					fmt.Fprintf(&tail, ";h%d", i)
+					break
+				}
+			}
 		}
 		if d1 != d2 {
 			fmt.Fprintf(&sb, ";r%d", i)
 		}
+		if kfault {
+			fmt.Fprintf(&tail, ";k%d", i)
+		}
 	}
+	sb.WriteString(tail.String())
 	return sb.String()
 }
 
@@ -833,7 +947,7 @@ func runScript(script string) string {
 	if strings.HasPrefix(script, "typed:") {
 		return runTyped(script)
 	}
-	m := &machine{firsts: map[int]string{}}
+	m := &machine{firsts: map[int]string{}, held: map[int][]keptNode{}}
 	var obs []string
 	for _, op := range strings.Fields(script) {
 		obs = append(obs, m.step(op))
